@@ -7,5 +7,5 @@ let fields (l : gtp2) = Printf.sprintf "v=%s;pf=%s;tf=%s;prio=%s;mt=%s;ml=%s;tei
   (i l.g2_prio) (i l.g2_mtype) (i l.g2_mlen) (i l.g2_teid) (i l.g2_seq) (i l.g2_spare) (String.concat "+" (Stdlib.List.map ie_str l.g2_ies))
 let desc = { fresh = g2_fresh; decode = g2_decode_into; serialize = None; fields; contents = (fun l -> l.g2_contents); payload = (fun l -> l.g2_payload);
   next = (fun _ _ -> "payload"); render_panics = g2_render_panics; of_spec = (fun _ -> failwith "no spec"); junk_len = 0 }
-let run id ops out = run_generic desc id ops out
+let run id ops out = Lsmallutil.run_with_decf desc g2_decode_fn id ops out
 let registered = Registry.register "Lgtp2" run
